@@ -50,11 +50,13 @@ def budget(tier):
 
 def strategy(tier):
     return st.builds(
-        lambda g, uni, cache, degen: {"g": g, "uni": list(dict.fromkeys(x % g["nv"] for x in uni)), "cache": cache, "degen": degen},
+        lambda g, uni, cache, degen, fill: {"g": g, "uni": list(dict.fromkeys(x % g["nv"] for x in uni)), "cache": cache, "degen": degen, **({"fill": fill} if fill else {})},
         graphs.graph_descs(max_v=5, max_e=8, min_v=1, min_e=0),
         st.lists(st.integers(0, 4), min_size=1, max_size=5),
         st.booleans(),
         st.one_of(st.none(), st.none(), st.tuples(st.integers(0, 7), st.integers(0, 1))),
+        # a few universes whose first 260 members are isolated fillers (size-dependent code paths of the entry points)
+        st.sampled_from([0] * 319 + [260]),
     )
 
 
@@ -194,8 +196,11 @@ def check_case(case):
         for k, v in enumerate(vs):
             if k % 2:
                 v.extra = ["payload", k]
-        u = Universe(vertices=[vs[m] for m in case["uni"]])
-        start = u.vertices[0]
+        fillers = [Vertex(attributes={"i": 20000 + k}) for k in range(case.get("fill") or 0)]
+        u = Universe(vertices=fillers + [vs[m] for m in case["uni"]])
+        start = vs[case["uni"][0]]
+        if fillers:
+            classes.add("universe-with-%d-filler-members" % len(fillers))
         sub = Universe(vertices=u.vertices[: max(1, (len(u.vertices) + 1) // 2)] + [v for v in vs if all(v is not m for m in u.vertices)][:1])
         if case.get("degen") and ls:
             # a link that has LOST an end (public Link.unlink_from) but is still attached at the other one
@@ -203,7 +208,7 @@ def check_case(case):
             if len(l.vertices) == 2 and l.vertices[0] is not l.vertices[1]:
                 l.unlink_from(l.vertices[case["degen"][1]])
                 classes.add("link-that-lost-an-end")
-        objs = vs + ls + [u, u.laws, sub, sub.laws]
+        objs = vs + ls + [u, u.laws, sub, sub.laws] + fillers
         before = deep_snapshot(objs)
         for name, call, good in entries(vs, ls, u, start, sub):
             cnt = [0]
@@ -219,7 +224,8 @@ def check_case(case):
             if good is None:
                 continue
             N = cnt[0]
-            for k in range(1, N + 1):
+            # every fault point; for callbacks invoked very often (big universes) the first, the middle and the last
+            for k in (range(1, N + 1) if N <= 40 else sorted({1, N // 2, N})):
                 c = [0]
                 armed = [True]
 
